@@ -166,6 +166,12 @@ def exact(run, fx):
     for fn, exp in (("cast_bad_len", True), ("cast_ok_masked", False), ("cast_ok_mod", False), ("cast_ok_guarded", False)):
         cs = D.narrowing_casts(fx, fx.bodies[F + fn])
         run.selftest("narrowing-cast/" + fn, bool(cs) and any(not c[3] for c in cs), exp)
+    for fn, exp in (("loop_ok_all", False), ("loop_bad_early_return", True), ("loop_ok_search", False), ("loop_ok_single_exit", False)):
+        run.selftest("early-exit-loop/" + fn, bool(D.early_exit_loops(fx, fx.bodies[F + fn])), exp)
+    fb = fx.bodies[F + "inplace_fill"]
+    rets = [fb.rvalue_term(st["rv"]) for bl in fb.blocks for st in bl["stmts"] if st["k"] == "assign" and st["dst"]["l"] == 0 and not st["dst"]["p"]]
+    pv = fb.provenance(rets[0], depth=8) if rets else {"params": set()}
+    run.selftest("inplace-provenance/params", {"a", "b"} <= pv["params"], True)
     run.selftest("mutation-map/insert+remove+assign", sorted(fm.get("seen", {})) == ["insert", "remove"] and sorted(fm.get("n", {})) == ["assign"], True)
 
 
